@@ -18,6 +18,7 @@ import (
 	sdk "github.com/cosmos/cosmos-sdk/types"
 	authtypes "github.com/cosmos/cosmos-sdk/x/auth/types"
 	"github.com/ethereum/go-ethereum/common"
+	ethcrypto "github.com/ethereum/go-ethereum/crypto"
 	"pgregory.net/rapid"
 
 	"verif/chain"
@@ -90,7 +91,7 @@ func genRefCase(t *rapid.T) RefCase {
 		f := evmasm.Frame{}
 		nops := rapid.IntRange(1, 5).Draw(t, "nops")
 		for j := 0; j < nops; j++ {
-			kinds := []string{"send", "send", "sstore", "sstore", "log"}
+			kinds := []string{"send", "send", "sstore", "sstore", "log", "create"}
 			if i+1 < nf {
 				kinds = append(kinds, "call", "call", "call")
 			}
@@ -115,6 +116,8 @@ func genRefCase(t *rapid.T) RefCase {
 				f.Ops = append(f.Ops, op)
 			case "sstore":
 				f.Ops = append(f.Ops, evmasm.Op{Kind: "sstore", Key: uint64(rapid.IntRange(0, 3).Draw(t, "key")), Val: uint64(rapid.IntRange(0, 2).Draw(t, "val"))})
+			case "create":
+				f.Ops = append(f.Ops, genRefCreate(t))
 			case "log":
 				f.Ops = append(f.Ops, evmasm.Op{Kind: "log", Key: uint64(10*i + j)})
 			case "burn":
@@ -243,6 +246,10 @@ func genRefCase(t *rapid.T) RefCase {
 		child := rapid.IntRange(1, nf-1).Draw(t, "fs-child")
 		q := evmasm.Op{Kind: "pre", CallOp: "STATICCALL", Target: pabi.BankAddr.Hex(), Data: fmt.Sprintf("%x", pabi.Pack("bank", "totalSupply")), Value: "0", Note: "bank.totalSupply", NoRecord: true}
 		body := []evmasm.Op{{Kind: "sstore", Key: uint64(rapid.IntRange(0, 3).Draw(t, "fs-k1")), Val: uint64(rapid.IntRange(1, 2).Draw(t, "fs-v1"))}, q}
+		if rapid.IntRange(0, 1).Draw(t, "fs-create") == 0 {
+			// the frame that will fail creates a contract before it queries: its nonce moves and a new account appears
+			body = append([]evmasm.Op{genRefCreate(t)}, body...)
+		}
 		if rapid.Bool().Draw(t, "fs-after") {
 			body = append(body, evmasm.Op{Kind: "sstore", Key: uint64(rapid.IntRange(0, 3).Draw(t, "fs-k2")), Val: uint64(rapid.IntRange(0, 2).Draw(t, "fs-v2"))})
 		}
@@ -258,11 +265,20 @@ func genRefCase(t *rapid.T) RefCase {
 		if rapid.Bool().Draw(t, "fs-parent-writes") {
 			pre = append(pre, evmasm.Op{Kind: "sstore", Key: uint64(rapid.IntRange(0, 3).Draw(t, "fs-pk")), Val: 1})
 		}
+		if c.Prog.Frames[child].Ops[0].Kind == "create" && rapid.IntRange(0, 2).Draw(t, "fs-create-shared") > 0 {
+			// the creating frame runs in its parent's context, and the parent has changes of its own that survive
+			pre = append(pre, evmasm.Op{Kind: "sstore", Key: 2, Val: 1})
+			call.CallOp = rapid.SampledFrom([]string{"DELEGATECALL", "CALLCODE"}).Draw(t, "fs-ccallop")
+		}
 		if rapid.IntRange(0, 2).Draw(t, "fs-double") == 0 {
 			// the same slot is flushed twice with different values: the parent writes it and queries a precompile, the
 			// child (sharing the parent's storage through DELEGATECALL/CALLCODE) overwrites it, queries and fails
-			k, v1 := c.Prog.Frames[child].Ops[0].Key, uint64(rapid.IntRange(1, 2).Draw(t, "fs-dv1"))
-			c.Prog.Frames[child].Ops[0].Val = []uint64{0, 3 - v1}[rapid.IntRange(0, 1).Draw(t, "fs-dv2")]
+			w := 0
+			for c.Prog.Frames[child].Ops[w].Kind != "sstore" {
+				w++
+			}
+			k, v1 := c.Prog.Frames[child].Ops[w].Key, uint64(rapid.IntRange(1, 2).Draw(t, "fs-dv1"))
+			c.Prog.Frames[child].Ops[w].Val = []uint64{0, 3 - v1}[rapid.IntRange(0, 1).Draw(t, "fs-dv2")]
 			pre = append(pre, evmasm.Op{Kind: "sstore", Key: k, Val: v1}, q)
 			call.CallOp = rapid.SampledFrom([]string{"DELEGATECALL", "CALLCODE"}).Draw(t, "fs-dcallop")
 		}
@@ -284,6 +300,14 @@ func genRefCase(t *rapid.T) RefCase {
 			Gas: uint64(rapid.SampledFrom([]int{3000000, 3000000, 3000000, 60000, 120000}).Draw(t, "gas"))})
 	}
 	return c
+}
+
+func genRefCreate(t *rapid.T) evmasm.Op {
+	op := evmasm.Op{Kind: "create", Val: uint64(rapid.IntRange(0, 2).Draw(t, "create-init")), Value: "0", NoRecord: rapid.IntRange(0, 2).Draw(t, "create-norec") == 0}
+	if rapid.IntRange(0, 2).Draw(t, "create2") == 0 {
+		op.CallOp, op.Key = "CREATE2", uint64(rapid.IntRange(0, 1).Draw(t, "salt"))
+	}
+	return op
 }
 
 type refDisc struct {
@@ -390,7 +414,37 @@ func runRef(c RefCase, class func(string)) (discs []refDisc, nontrivial bool) {
 		return app.EvmKeeper.GetCode(n.Ctx(), common.BytesToHash(acc.CodeHash))
 	}
 	price := gwei10
+	hasCreate := false
+	for _, f := range c.Prog.Frames {
+		for _, op := range append(append([]evmasm.Op{}, f.Ops...), f.Alt...) {
+			hasCreate = hasCreate || op.Kind == "create"
+		}
+	}
+	isCreated := map[common.Address]bool{}
 	for k, tx := range c.Txs {
+		if hasCreate {
+			// every address a create op of this transaction can produce: CREATE from a frame's next few nonces, CREATE2
+			// with the generator's salts and init codes (they stay watched in later transactions)
+			for i := 0; i < refFrames; i++ {
+				fa := evmasm.FrameAddr(i)
+				n0 := app.EvmKeeper.GetNonce(n.Ctx(), fa)
+				var cands []common.Address
+				for d := uint64(0); d < 4; d++ {
+					cands = append(cands, ethcrypto.CreateAddress(fa, n0+d))
+				}
+				for salt := 0; salt < 2; salt++ {
+					for mode := 0; mode < 3; mode++ {
+						cands = append(cands, ethcrypto.CreateAddress2(fa, common.BigToHash(big.NewInt(int64(salt))), ethcrypto.Keccak256(evmasm.CreateInit(mode))))
+					}
+				}
+				for _, a := range cands {
+					if !isCreated[a] {
+						isCreated[a] = true
+						watched = append(watched, a)
+					}
+				}
+			}
+		}
 		// ---- pre-state, read from the chain ----
 		pre := map[common.Address]refevm.Account{}
 		absent := map[common.Address]bool{} // no account record before this transaction
@@ -399,9 +453,9 @@ func runRef(c RefCase, class func(string)) (discs []refDisc, nontrivial bool) {
 			absent[a] = app.AccountKeeper.GetAccount(n.Ctx(), sdk.AccAddress(a.Bytes())) == nil
 			acc := refevm.Account{Balance: bal(a), Storage: map[common.Hash]common.Hash{}}
 			total.Add(total, acc.Balance)
+			acc.Nonce = app.EvmKeeper.GetNonce(n.Ctx(), a)
 			if code := codeOf(a); len(code) > 0 {
 				acc.Code = code
-				acc.Nonce = 1
 				for _, s := range slots {
 					if v := n.Storage(a, s); v != (common.Hash{}) {
 						acc.Storage[s] = v
@@ -466,7 +520,7 @@ func runRef(c RefCase, class func(string)) (discs []refDisc, nontrivial bool) {
 				// is untouched iff nothing but the fee left or reached it
 				return new(big.Int).Add(rr.State.GetBalance(a), new(big.Int).Mul(new(big.Int).SetUint64(rr.UsedGas), price)).Cmp(p.Balance) == 0
 			}
-			if p.Balance.Cmp(rr.State.GetBalance(a)) != 0 || (len(p.Code) > 0) != (len(rr.State.GetCode(a)) > 0) {
+			if p.Balance.Cmp(rr.State.GetBalance(a)) != 0 || (len(p.Code) > 0) != (len(rr.State.GetCode(a)) > 0) || p.Nonce != rr.State.GetNonce(a) {
 				return false
 			}
 			for _, s := range slots {
@@ -542,6 +596,25 @@ func runRef(c RefCase, class func(string)) (discs []refDisc, nontrivial bool) {
 			}
 			if got, want := len(codeOf(a)) > 0, len(rr.State.GetCode(a)) > 0; got != want {
 				discs = append(discs, refDisc{"C05", flushKey(a, "ref-code", "code"), fmt.Sprintf("%s: %s has code=%v, reference %v", desc, a.Hex(), got, want)})
+			}
+		}
+		// nonces (a CREATE moves the creator's) and the accounts create ops may have produced
+		for _, a := range watched {
+			if a == refSigner.Hex {
+				continue
+			}
+			if got, want := app.EvmKeeper.GetNonce(n.Ctx(), a), rr.State.GetNonce(a); got != want {
+				discs = append(discs, refDisc{"C05", flushKey(a, "ref-nonce", "nonce"), fmt.Sprintf("%s: nonce of %s is %d, reference %d", desc, a.Hex(), got, want)})
+			}
+			if !isCreated[a] {
+				continue
+			}
+			if got, want := len(codeOf(a)) > 0, len(rr.State.GetCode(a)) > 0; got != want {
+				discs = append(discs, refDisc{"C05", flushKey(a, "ref-code:created", "code"), fmt.Sprintf("%s: created address %s has code=%v, reference %v", desc, a.Hex(), got, want)})
+			}
+			s1 := common.BigToHash(big.NewInt(1))
+			if got, want := n.Storage(a, s1), rr.State.GetState(a, s1); got != want {
+				discs = append(discs, refDisc{"C05", flushKey(a, "ref-storage:created", "storage"), fmt.Sprintf("%s: created address %s slot 1 = %s, reference %s", desc, a.Hex(), got.Hex()[58:], want.Hex()[58:])})
 			}
 		}
 		logDigest := func(addr common.Address, topics []common.Hash) string { return addr.Hex() + ":" + fmt.Sprint(topics) }
